@@ -474,6 +474,7 @@ func C16(run *Run) {
 		replayStore(run)
 		return
 	}
+	crossStoreProbe(run) // query side: own model per store under concurrent resolution, foreign model ids refused
 	runHistories(run, histCfg{Backends: []string{"memory", "sqlite"}, Histories: run.Pick(12, 120), Steps: run.Pick(40, 80), Walks: true, Models: true, Assertions: true, Stores: true, Invalid: true})
 	storeModelStates(run)
 	run.Coverage["rule"] = "2-3 stores per history with identical store names, object, relation, user and condition names; interleaved writes, model writes, assertions, walks and store deletion; after every write EVERY store is dumped and must equal its own StoreTrace state (a write to one store leaves the others unchanged); GetStore/ListStores must show exactly the live stores; non-trivial = distinct operations"
